@@ -1,14 +1,18 @@
 (* Property C13 — a long-lived project answers like a freshly opened one.  Theorems only. *)
 From stdpp Require Import gmap list sets.
 From Coq Require Import NArith.
-From RopeVerif.C13 Require Import Observer PathProofs ObserverProofs WitnessProofs.
+From RopeVerif.C13 Require Import Observer PathProofs ObserverProofs WitnessProofs AutoImport AutoImportProofs.
 
 (* ================================================================================================
    HEADLINE THEOREMS — the code as it is now.  The two defects this check found (a concluded import
    resolution surviving a creation/move/removal; a folder move raising half-way) were fixed in /repo by
    commits b19aaa7 and d932e8e; the model variant fix_move = fix_forget = true ([code_cfg]) is the code's
    behaviour and is what the correspondence run compares rope with on every run.  For it the property
-   holds at full strength: no side condition on steps or histories. *)
+   holds at full strength.  The only hypothesis left is the one the property text itself makes about
+   changes behind rope's back, stated precisely by [ext_ok] / [ext_sound]: the batch is confined to the
+   folder that is validated afterwards, and every modification of a watched resource changes at least
+   one component of the (modification time, size) indicator rope stored for it ([ind_sound]; DESIGN's
+   indicator_sound).  Steps through rope and queries need nothing. *)
 
 (* Every step — a primitive change through rope, any changes behind rope's back followed by
    project.validate(), any cache-filling query — preserves [Coherent]: every cached module is the parse of
@@ -16,21 +20,22 @@ From RopeVerif.C13 Require Import Observer PathProofs ObserverProofs WitnessProo
    folder's, the cached file list is the file list, no stored indicator is out of date, and every concluded
    ImportedModule cell is what find_module answers now. *)
 Theorem C13_coherent_inv_fixed :
-  forall s o, fix_move (cfg s) = true -> fix_forget (cfg s) = true -> Coherent s -> Coherent (step s o).
+  forall s o, fix_move (cfg s) = true -> fix_forget (cfg s) = true -> ext_ok s o ->
+              Coherent s -> Coherent (step s o).
 Proof. exact coherent_inv_fixed. Qed.
 Print Assumptions C13_coherent_inv_fixed.
 
 (* After ANY history from a freshly opened project, with queries interleaved anywhere, every modelled
    query is answered as by a brand-new project opened on the same directory. *)
 Theorem C13_history_agrees_fixed :
-  forall d c ops q, fix_move c = true -> fix_forget c = true -> wf_disk d ->
+  forall d c ops q, fix_move c = true -> fix_forget c = true -> wf_disk d -> ext_sound (init d c) ops ->
     (run_query (run (init d c) ops) q).2 = (run_query (fresh (run (init d c) ops)) q).2.
 Proof. exact history_agrees_fixed. Qed.
 Print Assumptions C13_history_agrees_fixed.
 
 (* the same, instantiated with the configuration of the current code *)
 Theorem C13_history_agrees_current_code :
-  forall d soa_pref ops q, wf_disk d ->
+  forall d soa_pref ops q, wf_disk d -> ext_sound (init d (code_cfg soa_pref)) ops ->
     (run_query (run (init d (code_cfg soa_pref)) ops) q).2
     = (run_query (fresh (run (init d (code_cfg soa_pref)) ops)) q).2.
 Proof. exact code_history_agrees. Qed.
@@ -48,7 +53,7 @@ Print Assumptions C13_history_agrees_current_code.
    cells only point to cached modules.  The only excluded step is the one on which rope itself raises
    (C13_folder_move_raises_refuted). *)
 Theorem C13_cache_coherent_inv :
-  forall s o, CacheCoherent s -> raises s o = false -> CacheCoherent (step s o).
+  forall s o, CacheCoherent s -> raises s o = false -> ext_ok s o -> CacheCoherent (step s o).
 Proof. exact cache_coherent_inv. Qed.
 Print Assumptions C13_cache_coherent_inv.
 
@@ -59,7 +64,8 @@ Print Assumptions C13_cache_coherent_inv.
    under a concluded cell that survives it.  With the fixes both hypotheses are theorems
    (raises_fixed, resolution_unaffected_fixed), which is how C13_coherent_inv_fixed is obtained. *)
 Theorem C13_coherent_inv_partial :
-  forall s o, Coherent s -> raises s o = false -> resolution_unaffected s o -> Coherent (step s o).
+  forall s o, Coherent s -> raises s o = false -> ext_ok s o -> resolution_unaffected s o ->
+              Coherent (step s o).
 Proof. exact coherent_inv_partial. Qed.
 Print Assumptions C13_coherent_inv_partial.
 
@@ -76,12 +82,43 @@ Theorem C13_cache_query_agrees :
 Proof. exact cache_query_agrees. Qed.
 Print Assumptions C13_cache_query_agrees.
 
-(* Whatever was done behind rope's back (any sequence of external writes, creations, removals, moves, each
-   of which changes the indicator of what it touches), project.validate() re-establishes coherence. *)
+(* project.validate(f) catches up with ANY sequence of writes, creations, removals and moves made behind
+   rope's back below the folder f (f = [] is project.validate()), provided [ind_sound]: a watched resource
+   whose current (mtime, size) indicator equals the stored one has not been modified — i.e. every
+   modification of a watched resource changed its modification time or its size.  The indicator is modelled
+   as that pair; modification times come from a logical clock; a rewrite may keep the old time. *)
 Theorem C13_validate_catches_up :
-  forall s xs, CacheCoherent s -> CacheCoherent (validate (foldl xstep s xs)).
+  forall f s xs, CacheCoherent s -> forallb (xunder f) xs = true -> ind_sound s (foldl xstep s xs) ->
+                 CacheCoherent (validate_in f (foldl xstep s xs)).
 Proof. exact validate_catches_up. Qed.
 Print Assumptions C13_validate_catches_up.
+
+(* [ind_sound] cannot be dropped: a rewrite that keeps both components is invisible (rope's design) ... *)
+Theorem C13_validate_needs_indicator_sound_refuted :
+  exists s xs, Coherent s /\ forallb (xunder []) xs = true /\ ~ ind_sound s (foldl xstep s xs)
+               /\ ~ CacheCoherent (validate (foldl xstep s xs)).
+Proof. exact validate_needs_indicator_sound_refuted. Qed.
+Print Assumptions C13_validate_needs_indicator_sound_refuted.
+
+(* ... and the size component is needed: with the weaker indicator "modification time only" (model variant
+   ind_size = false; no version of the code, but the mechanism of seeded mutation C13-1) a rewrite that
+   keeps the time and changes the size — visible in the pair — leaves a stale module cached after
+   validate, and the long-lived project answers differently from a brand-new one. *)
+Theorem C13_mtime_only_indicator_refuted :
+  exists s xs, ind_size (cfg s) = false /\ Coherent s /\ forallb (xunder []) xs = true
+               /\ pair_sound s (foldl xstep s xs)
+               /\ ~ CacheCoherent (validate (foldl xstep s xs))
+               /\ (run_query (validate (foldl xstep s xs)) (QLoad [1%N])).2
+                  <> (run_query (fresh (validate (foldl xstep s xs))) (QLoad [1%N])).2.
+Proof. exact mtime_only_indicator_refuted. Qed.
+Print Assumptions C13_mtime_only_indicator_refuted.
+
+Example C13_example_pair_indicator :
+  Coherent (wit3 true) /\ ext_ok (wit3 true) (OExternal [] wit3_xs)
+  /\ Coherent (step (wit3 true) (OExternal [] wit3_xs))
+  /\ mods (step (wit3 true) (OExternal [] wit3_xs)) = ∅.
+Proof. exact pair_indicator_example. Qed.
+Print Assumptions C13_example_pair_indicator.
 
 (* Whole histories from a freshly opened project, queries interleaved anywhere. *)
 Theorem C13_history_agrees :
@@ -125,8 +162,9 @@ Theorem C13_folder_move_raises_refuted :
 Proof. exact folder_move_raises_refuted. Qed.
 Print Assumptions C13_folder_move_raises_refuted.
 
-(* Non-vacuity: a 13-step history with a package, its cached child list, a resolved import, an external
-   batch + validate and a folder move satisfies the hypotheses of every theorem above. *)
+(* Non-vacuity: a 15-step history with a package, its cached child list, a resolved import, an external
+   batch + validate, a time-preserving rewrite followed by validate of a sub-folder only, and a folder move
+   satisfies the hypotheses of every theorem above (ext_ok included). *)
 Example C13_example_history :
   admissible (init ∅ cfg0) ex_ops /\ Coherent (run (init ∅ cfg0) ex_ops)
   /\ size (mods (run (init ∅ cfg0) ex_ops)) = 2
@@ -150,3 +188,53 @@ Example C13_example_fixed :
   /\ Coherent (run (init ∅ cfg_fixed) (wit2_ops ++ [wit2_op])).
 Proof. exact fixed_witnesses. Qed.
 Print Assumptions C13_example_fixed.
+
+(* ================================================================================================
+   The global-name index of rope.contrib.autoimport (coq/C13/AutoImport.v: the index as a map from modules
+   to exported names, with the observer events AutoImport listens to; tied to the sqlite index of a live
+   observing AutoImport by the stream C correspondence). *)
+
+(* Every change made through rope keeps the index equal to a brand-new one, except a move or removal of a
+   folder below which something is indexed ([ai_ok]); a batch behind rope's back is inside the domain only
+   if it does not change what a brand-new index would hold (the index has no validate callback). *)
+Theorem C13_autoimport_step_coherent :
+  forall s t, ai_coherent s -> ai_ok s t = true -> ai_coherent (ai_step s t).
+Proof. exact ai_step_coherent. Qed.
+Print Assumptions C13_autoimport_step_coherent.
+
+Theorem C13_autoimport_history_agrees :
+  forall d ts, ai_admissible (AIState d (fresh_index d)) ts = true ->
+               ai_coherent (foldl ai_step (AIState d (fresh_index d)) ts).
+Proof. exact ai_history_agrees. Qed.
+Print Assumptions C13_autoimport_history_agrees.
+
+(* the index query of C13_query_agrees: a coherent index answers like a brand-new one *)
+Theorem C13_autoimport_query_agrees :
+  forall s m, ai_coherent s -> ai_query s m = ai_query (AIState (atree s) (fresh_index (atree s))) m.
+Proof. exact ai_query_agrees. Qed.
+Print Assumptions C13_autoimport_query_agrees.
+
+(* OPEN finding C13-autoimport-folder-events (findings/C13-autoimport-folder-move.json is this witness): *)
+Theorem C13_autoimport_folder_move_refuted :
+  exists s t m, ai_coherent s /\ t = SRope (AMove [0%N] [4%N]) /\ ~ ai_coherent (ai_step s t)
+                /\ ai_query (ai_step s t) m
+                   <> ai_query (AIState (atree (ai_step s t)) (fresh_index (atree (ai_step s t)))) m.
+Proof. exact autoimport_folder_move_refuted. Qed.
+Print Assumptions C13_autoimport_folder_move_refuted.
+
+Theorem C13_autoimport_folder_remove_refuted :
+  exists s, ai_coherent s /\ ~ ai_coherent (ai_step s (SRope (ARemove [0%N]))).
+Proof. exact autoimport_folder_remove_refuted. Qed.
+Print Assumptions C13_autoimport_folder_remove_refuted.
+
+(* OPEN finding C13-autoimport-no-validate (findings/C13-autoimport-no-validate.json is this witness): *)
+Theorem C13_autoimport_no_validate_refuted :
+  exists s t, ai_coherent s /\ t = SExternal [AWrite [5%N] [2%N]] /\ ~ ai_coherent (ai_step s t).
+Proof. exact autoimport_no_validate_refuted. Qed.
+Print Assumptions C13_autoimport_no_validate_refuted.
+
+Example C13_example_autoimport :
+  ai_admissible (AIState ∅ (fresh_index ∅)) ai_ex = true
+  /\ map_to_list (aidx (foldl ai_step (AIState ∅ (fresh_index ∅)) (take 8 ai_ex))) = [([4%N; 9%N], [3%N])].
+Proof. exact ai_example. Qed.
+Print Assumptions C13_example_autoimport.
